@@ -202,6 +202,7 @@ Fixpoint val_eqb (a b : val) {struct a} : bool :=
   | VNil, VNil => true
   | VOpaque _ x, VOpaque _ y =>
     (String.eqb x y || match string_to_Z y with Some z => String.eqb x (fmt_duration z) | None => false end)%bool
+  | VOpaque _ x, VInt z => (String.eqb x (fmt_duration z) || String.eqb x (Z_to_string z))%bool   (* a derived duration *)
   | VJson x, VJson y => json_eqb x y
   | VStruct l, VStruct m =>
     (fix go (l m : list val) {struct l} : bool :=
@@ -227,9 +228,25 @@ Definition dec_case_ok (k : dec_case) : bool :=
   | None => false
   end.
 
-Inductive rt_case := EncCase (k : enc_case) | DecCase (k : dec_case).
+(* the same for types whose closure also has shadow-field hooks (decode runs the derivations): no wf requirement *)
+Definition dech_case_ok (k : dec_case) : bool :=
+  let '(t, j, v) := k in
+  match decode cfg_structs 64 t j with
+  | Some v' => val_eqb v' v
+  | None => false
+  end.
+(* the model's own round trip evaluated on a real value: dump (load (dump v)) = dump v *)
+Definition stable_case_ok (k : ty * val) : bool :=
+  let '(t, v) := k in
+  let j := encode cfg_structs 64 t v in
+  match decode cfg_structs 64 t j with
+  | Some v' => (fuel_free j && json_eqb (encode cfg_structs 64 t v') j)%bool
+  | None => false
+  end.
+
+Inductive rt_case := EncCase (k : enc_case) | DecCase (k : dec_case) | DecHCase (k : dec_case) | StableCase (k : ty * val).
 Definition rt_case_ok (k : rt_case) : bool :=
-  match k with EncCase e => enc_case_ok e | DecCase d => dec_case_ok d end.
+  match k with EncCase e => enc_case_ok e | DecCase d => dec_case_ok d | DecHCase d => dech_case_ok d | StableCase s => stable_case_ok s end.
 
 Fixpoint mismatches_from {A} (ok : A -> bool) (i : nat) (l : list A) : list nat :=
   match l with
